@@ -50,6 +50,11 @@ type Pipe struct {
 	lastAt   int64
 	Window   int // 0 = unlimited
 	buffered int
+	// OnWrite, when set, is called with every buffer handed to Write on this
+	// direction, before any of it is delivered (and before the writer may block on
+	// a full window). It runs in the writing task and must only touch atomics,
+	// flags and Sim.Boost.
+	OnWrite func(b []byte)
 
 	SegPol     int
 	MSS        int
@@ -270,6 +275,9 @@ func (c *Conn) Write(b []byte) (int, error) {
 	c.Writes++
 	s.Nev++
 	p.capture(b, s.Nev)
+	if p.OnWrite != nil {
+		p.OnWrite(b)
+	}
 	s.logEv(EvNetWrite, int64(len(b)), int64(p.ncap))
 	t := s.curTask()
 	off := 0
